@@ -152,7 +152,7 @@ type Engine struct {
 	Pure        map[string]bool
 	HarnessP    *ssa.Package
 	Findings    []Finding
-	seenFind    map[string]bool
+	seenFind    map[string]int
 	Incon       []string
 	seenInc     map[string]bool
 	Stats       map[string]int
